@@ -1,16 +1,42 @@
-"""C19: read-side critical sections are safe inside signal handlers (memb, mb; bp: see DESIGN)."""
+"""C19: read-side critical sections are safe inside signal handlers (memb, mb; bp: see DESIGN).
+
+spec/UrcuGp.tla (mb, memb) and the bp specification (tools/props/bp_parts.py) have a signal-handler process per interruptible thread:
+rcu_read_lock(); rcu_dereference(); rcu_read_unlock() between any two steps of the interrupted thread; TLC checks that the reader word at
+sig_exit is the one at sig_enter and the C01 assertions for the handler's and the interrupted code's sections.  harness/d_gp.c / d_bp.c run
+the handler on the victim's stack at the k-th scheduling point for every k (VRT_SIGAT) and at random points (VRT_SIGS); driver oracle: reader
+word (nesting, phase inside a section) and rcu_read_ongoing() at handler exit equal to those at entry, use-after-free in the handler.
+Scenarios: gp_sig (reader interrupted inside lock / section / unlock), gp_sig_nest (reader with a nested section: handler at depth 0, 1, 2),
+gp_sig_sync (registered updater interrupted inside synchronize_rcu(), also while asleep in FUTEX_WAIT), gp_sig2 (thorough: two grace periods,
+reader and updater interrupted), bp_sig*; crcu_sig* (tools/props/sig_parts.py): a registered reader interrupted in the MIDDLE OF call_rcu() --
+inside its internal read-side section (the handler's section nests in it), inside the lazy creation of the default helper under
+call_rcu_mutex, between the two steps of the wfcq enqueue, in the helper wake-up, and with the caller inside a section of its own -- on the
+real mb / memb flavors, against spec/CallRcu.tla extended with the same handler process (invariants SigRestores, NoUseAfterFree, AfterGP,
+AtMostOnce, NoLoss).
+"""
 from vlib import *
 import conc
 from props.gpcommon import gp_component
-from props import bp_parts
+from props import bp_parts, sig_parts
 
 LEVEL = "model_checking"
 ASSUMPTIONS = ["interruption points are the thread's shared-memory accesses and blocking calls (between any two steps of the specification), not machine instructions",
-               "the handler performs rcu_read_lock(); rcu_dereference(); rcu_read_unlock(); nesting of handlers <= 1 in TLC",
+               "the handler performs rcu_read_lock(); rcu_dereference(); rcu_read_unlock(); nesting of handlers <= 1 in TLC (one handler frame at a time; the "
+               "interrupted code may itself be at nesting depth 0, 1 or 2)",
                "x86-TSO; bounds as in C01"]
 
 
 def run(ctx):
+    import os
+    if os.environ.get("VERIF_C19_NOPARTS") == "1":       # (timing / debugging aid: the original body alone)
+        return run_body(ctx)
+    part = sig_parts.Part(ctx)         # crcu_sig* (call_rcu interrupted), gp_sig_nest, gp_sig_sync: run next to the body below, merged at the end
+    try:
+        run_body(ctx)
+    finally:
+        part.join()
+
+
+def run_body(ctx):
     q = ctx.quick()
     n, sim = (80, 30) if q else (2000, 400)
     for comp in (gp_component("mb", False, sig_threads=("r1",), sig_budget=1), gp_component("memb", True, sig_threads=("r1",), sig_budget=1)):
@@ -43,4 +69,6 @@ def run(ctx):
 def replay(ctx, path):
     if bp_parts.is_bp_replay(path):
         return bp_parts.replay(ctx, path)
+    if sig_parts.is_part_replay(path):
+        return sig_parts.replay(ctx, path)
     conc.replay(ctx, gp_component("mb", False, sig_threads=("r1",), sig_budget=1), path)
